@@ -128,6 +128,20 @@ CLAIMED.update({
    note="Dash-prefixed arguments without a preceding -- are clap usage errors in every mode and not generated.",
    technique="exhaustive enumeration of program x argv x invocation-mode grid with a differential oracle between modes"),
 })
+# additions of the third seeded round (DESIGN 8.13), appended to the descriptions above
+EXTRA = {
+ "C02": "The E2 pool also holds the counter closure whose captured local lives in a nested block of the enclosing function and is written inside a nested block of the closure.",
+ "C03": "Non-initial parser states: every non-assignment shape is also embedded, minimal and fully parenthesised, in 17 contexts (after a match with/without an explicit default arm, inside arm bodies, as scrutinee, condition, block body, element, map value, argument, filter pattern, filter action, after filters) and the parser's fully parenthesised rendering of both must agree.",
+ "C07": "The looped statements include map literals with repeated keys, keys equal across kinds and keys computed from the loop counter, and empty literals.",
+ "C08": "The complete packet read sweep of C15 (frame grid incl. QinQ x every cut length x named and $n read sequences) is re-run with the crash-only oracle.",
+ "C10": "Thorough tier: 66 keys (ends of the i64 range and the doubles they convert to, +-2^53+-1, infinities, smallest subnormal, NUL char/string, byte/int/float/char look-alikes, deeper and mixed arrays) = 4,356 ordered pairs x 14 access programs, and the BFS over 11 colliding keys (adds [[0.0]], [[-0.0]], [[0]]) to its fixpoint (12,231 states, 411,840 replayed transitions).",
+ "C11": "sort: a tenth domain of negative fractions mixed with the integers on both sides of them.",
+ "C22": "Damaged captures: a record announcing a caplen above the snaplen in the middle or at the start of an otherwise valid capture, with a record-stream model deciding which read meets it (the call that meets it with nothing to return must return an error object; after a pcap_read_all that returned the packets before it, the next read must); also on pcap_stream(stdin) through the binary.",
+ "C23": "The slot family's stored closure uses literals of its own and the later definition line adds constants, so a constant pool cut back after a runtime error is observable.",
+}
+for _k, _v in EXTRA.items():
+    CLAIMED[_k]["text"] += " " + _v
+
 NOT_YET = "check not built yet in this round (machinery under construction; see DESIGN.md section 4 for the planned check)"
 
 props = [json.loads(l) for l in open(os.path.join(HERE, "properties.jsonl"))]
